@@ -52,8 +52,9 @@ class Vaccinate(Opinion):
         super().build(params)
 
         # add vaccination events for ignorant and stifler individuals
-        self.addEventPerElement(self.IGNORANT, params[self.P_VACCINATE], self.vaccinate)
-        self.addEventPerElement(self.STIFLER, params[self.P_VACCINATE], self.vaccinate)
+        [pVaccinate] = self.getParameters(params, [self.P_VACCINATE])
+        self.addEventPerElement(self.IGNORANT, pVaccinate, self.vaccinate)
+        self.addEventPerElement(self.STIFLER, pVaccinate, self.vaccinate)
 
     def vaccinate(self, t: float, n: Node):
         '''Perform the vaccination operation. The actual functionality is
